@@ -86,6 +86,85 @@ def hand_lift_dep(x: fp.Real, y: fp.Real, xs: list[fp.Real], k: fp.Real):
         with fp.MPFixedContext(-k):
             y = y + e / 3
     return (x, y)''',
+    'hand_same_callee_nested': '''@fp.fpy
+def hand_scn_mix(a: fp.Real, b: fp.Real) -> fp.Real:
+    t = a * 10
+    return t + b
+
+@fp.fpy
+def hand_scn_put(zs: list[fp.Real], a: fp.Real, b: fp.Real) -> fp.Real:
+    zs[0] = a
+    return zs[0] * 10 + b
+
+@fp.fpy
+def hand_same_callee_nested(x: fp.Real, y: fp.Real, xs: list[fp.Real], k: fp.Real):
+    r = hand_scn_mix(x, hand_scn_mix(y, k))
+    ys = [x, y]
+    zs = [y, x]
+    s = hand_scn_put(ys, x, hand_scn_put(zs, y, k))
+    acc = 0
+    for e in xs:
+        acc = hand_scn_mix(acc, hand_scn_mix(e, acc))
+    return (r, s, ys, zs, acc)''',
+    'hand_with_header_call': '''@fp.fpy(ctx=fp.INTEGER)
+def hand_whc_pick(p: fp.Real) -> fp.Real:
+    return p / 2 + 3
+
+@fp.fpy(ctx=fp.MPFixedContext(0, fp.RM.RTP))
+def hand_whc_pick2(p: fp.Real) -> fp.Real:
+    return p / 4 + 2
+
+@fp.fpy
+def hand_with_header_call(x: fp.Real, y: fp.Real, xs: list[fp.Real], k: fp.Real):
+    with fp.MPFloatContext(hand_whc_pick(k + 4)):
+        a = x / 3 + y
+    with fp.MPFloatContext(hand_whc_pick2(k + 5), fp.RM.RTZ):
+        b = x / 7 - y
+    return (a, b)''',
+    'hand_free_var_clash': '''@fp.fpy
+def hand_fvc_scale(a: fp.Real) -> fp.Real:
+    return a * G1 + G2
+
+@fp.fpy
+def hand_free_var_clash(x: fp.Real, y: fp.Real, xs: list[fp.Real], k: fp.Real):
+    G1 = x + 10
+    t = hand_fvc_scale(y)
+    G2 = t
+    return (hand_fvc_scale(G1), t, G2)''',
+    'hand_cond_call': '''@fp.fpy
+def hand_cc_bump(zs: list[fp.Real], a: fp.Real) -> fp.Real:
+    zs[0] = zs[0] + a
+    return zs[0]
+
+@fp.fpy
+def hand_cond_call(x: fp.Real, y: fp.Real, xs: list[fp.Real], k: fp.Real):
+    ys = [x, y]
+    a = hand_cc_bump(ys, 1) if x > 1 else y
+    b = y if x > 1 else hand_cc_bump(ys, 5)
+    c = [hand_cc_bump(ys, e) for e in xs]
+    d = x > 1 and hand_cc_bump(ys, 7) > 0
+    return (a, b, c, d, ys)''',
+    'hand_close_negzero': '''@fp.fpy
+def hand_close_negzero(x: fp.Real, y: fp.Real, xs: list[fp.Real], k: fp.Real):
+    a = 1 / NZ
+    b = NZ * x
+    return (a, b, NZ)''',
+    'hand_lift_arith': '''@fp.fpy
+def hand_lift_arith(x: fp.Real, y: fp.Real, xs: list[fp.Real], k: fp.Real):
+    acc = x
+    for e in xs:
+        with fp.MPFloatContext(5 + 6):
+            acc = acc + e / 3
+        with fp.MPFixedContext(-(3 + 4)):
+            acc = acc * 1.1
+    return acc''',
+    'hand_lift_arith2': '''@fp.fpy
+def hand_lift_arith2(x: fp.Real, y: fp.Real, xs: list[fp.Real], k: fp.Real):
+    with fp.MPFloatContext(5 + 6):
+        a = x / 3 + y / 7
+    with fp.MPFloatContext(3 * 3):
+        b = a / 3 + 1.1
+    return a, b''',
     'hand_capture': '''@fp.fpy
 def hand_capture(x: fp.Real, y: fp.Real, xs: list[fp.Real], k: fp.Real):
     with fp.MPFloatContext(3):
@@ -207,13 +286,14 @@ def run(tier: str) -> int:
                 progs.append((n, f, srcs[n]))
         shapes = {n: list_read_before_mutating_call(f) for (n, f, _) in progs}
         shapes_arg = {n: list_read_before_mutating_call(f, call_parents=True) for (n, f, _) in progs}
-        pairs, timeouts = equiv.make_pairs(progs, configs_general(), rng, nvec, stats)
+        agree = []
+        pairs, timeouts = equiv.make_pairs(progs, configs_general(), rng, nvec, stats, agree=agree)
         # pinned caller contexts: original evaluated with that context
         for C in (fp.MPFloatContext(3), fp.MPFixedContext(-1, fp.RM.RTZ), fp.IEEEContext(3, 6, fp.RM.RTP)):
             cfgs = [(f'monomorphize[{type(C).__name__}]', lambda f, C=C: fp.strategies.monomorphize(f, ctx=C)),
                     (f'monomorphize;simplify[{type(C).__name__}]', lambda f, C=C: fp.strategies.simplify(fp.strategies.monomorphize(f, ctx=C)))]
             sub = [q for q in progs if q[0].startswith('hand_')] + [q for q in progs if not q[0].startswith('hand_')][:: (1 if tier == 'thorough' else 2)]
-            p2, t2 = equiv.make_pairs(sub, cfgs, rng, max(4, nvec // 2), stats, vectors_fn=vectors_fixed_ctx(C), pid0=len(pairs) + 1000)
+            p2, t2 = equiv.make_pairs(sub, cfgs, rng, max(4, nvec // 2), stats, vectors_fn=vectors_fixed_ctx(C), pid0=len(pairs) + 1000, agree=agree)
             # renumber to keep pids unique
             for (o, x, m) in p2:
                 o['pid'] = x['pid'] = len(pairs)
@@ -231,6 +311,7 @@ def run(tier: str) -> int:
             return {'shape': 'list-read-argument-before-partially-inlined-mutating-call'}
         return {}
     equiv.report(rep, pairs, timeouts, mm, skips, stats, extra_key=key)
+    equiv.run_agree(rep, agree, extra_key=key)
     rep.cov['distinct_nontrivial'] = len({(m['program'], m['xsrc']) for (_, _, m) in pairs})
     rep.cov['rule'] = ('hand-written + generated caller/callee programs x {inline all/one site/one level, close, lift_context, '
                        'monomorphize under 3 pinned contexts, compositions}; non-trivial = distinct transformed program')
